@@ -23,6 +23,10 @@ CHECKS = {
             "Bounded: DAGs <= 4 (5) nodes, digraphs <= 3 inner nodes, k <= 5; graph algorithms run concretely per enumerated graph.", "z3; spec encodings", "5/C09"),
     "C12": (MC, "z3 on the LP rows produced by each helper on a raw SolverWrapper: soundness and completeness (canonical witness for auxiliaries) over all variable values; bound/objective op sequences vs snapshot",
             "Bounds enumerated (they must be concrete to cross into HiGHS); values symbolic.", "z3; highspy getLp()", "5/C12"),
+    "C05": (TV, "captured LP under each optimisation vector vs the all-off baseline LP of the same instance: z3 equi-feasibility and equality of certified optima; honest results compared for Min* wrappers and shortcut routes",
+            "Bounded: curated + sampled small instances, vectors = baseline, single toggles, defaults, all-on, seeded random (full product in thorough).", "z3; HiGHS honest runs for the wrappers", "5/C05"),
+    "C06": (MC, "z3 reachability on the product of the s-t graph with subsequence automata (rank-based well-founded witness; unsat = no walk of any length) for safety, slot incompatibility and pruning; QF_LRA for flow-safe paths",
+            "Bounded: DAGs <= 4 (5) nodes, digraphs <= 3 inner nodes, all/half/3-edge trusted sets; dominator/bridge code runs concretely.", "z3; elementary lemma relating covers to walks through one trusted element", "5/C06"),
     "C07": (TV, "certified optimum of the captured LP (z3 decision queries) == certified optimum of an independent spec (route enumeration / Euler walks); per-edge errors and reported objective consistent for every optimal LP answer (z3) and through the real getters on solver-chosen answers",
             "Bounded: DAGs <= 4 (5) nodes, digraphs <= 3 inner nodes, weights 0..4, k <= 3; cyclic spec multiplicity <= max weight + 1.", "z3; spec encodings; HiGHS optimum certified on the LP before use", "5/C07"),
     "C08": (TV, "as C07 for the slack model (slack inequality on decoded solutions for every optimal LP answer; optimum vs spec), plus LP_k feasibility for k in {None, w*, w*+1} with w* the z3-certified covering number",
